@@ -666,6 +666,8 @@ def dec_mode(ctx):
 
 def _cmp_set(e, var_pred):
     """normalise `len OP const` to the set of satisfying lengths in 0..8"""
+    if e[0] == "call" and e[1].endswith("Reader::is_empty"):
+        return frozenset({0})
     if e[0] == "un" and e[1] == "Not":
         s = _cmp_set(e[2], var_pred)
         return None if s is None else frozenset(range(9)) - s
@@ -694,12 +696,20 @@ def dec_thresh(ctx):
         return x[0] == "call" and x[1].endswith("Reader::is_empty")
     # EDIFACT: hands the rest to ASCII iff len <= 2
     sts = T.stmts(f.thir["decodation::decode_edifact"]["body"], {"__noinline__": True})
+    # lengths at which the chunk loop stops before touching a codeword: the complement of the while condition, plus leading
+    # `if <len test> { break }` statements of the body
     found = None
-    for st in T.stmt_walk(sts):
-        if st[0] == "if":
-            s = _cmp_set(st[1], is_len)
-            if s is not None and any(x[0] == "break" for x in st[2]):
-                found = s
+    loops = [s0 for s0 in sts if s0[0] == "loop"]
+    if len(loops) == 1 and loops[0][1] and loops[0][1][0][0] == "if" and any(x[0] == "break" for x in loops[0][1][0][3]):
+        c = _cmp_set(loops[0][1][0][1], is_len)
+        if c is not None:
+            found = frozenset(range(9)) - c
+            for st in loops[0][1][0][2]:
+                s = _cmp_set(st[1], is_len) if st[0] == "if" and isinstance(st[1], tuple) and st[1][0] != "iflet" else None
+                if s is not None and len(st[2]) == 1 and st[2][0][0] == "break" and not st[3]:
+                    found = found | s
+                else:
+                    break
     obs.append(Ob(r, "edifact-rest", found == frozenset({0, 1, 2}), "EDIFACT: the remaining codewords are left to ASCII iff at most 2 remain (end-of-symbol rule)", detail=sorted(found) if found is not None else None))
     # C40/Text/X12: triple decoding continues iff len > 1; a single trailing 254 is consumed iff len == 1
     for fn in ("decodation::decode_c40_like", "decodation::decode_x12"):
@@ -711,7 +721,14 @@ def dec_thresh(ctx):
         obs.append(Ob(r, "%s:continue" % fn.split("::")[-1], cont == frozenset(range(2, 9)),
                       "%s: pairs are decoded while more than one codeword remains (a single trailing codeword is ASCII)" % fn.split("::")[-1], detail=sorted(cont) if cont is not None else None))
         tail = None
+        # (the test may live in a private helper that is called, as a statement, with the reader)
+        top = list(sts)
         for st in sts:
+            if st[0] == "expr" and st[1][0] == "call" and st[1][1].startswith("decodation::") and not st[1][1].startswith("decodation::Reader"):
+                hs, _ = T.fn_stmts(f, next((n for n in f.thir if T.canon(n) == st[1][1]), ""))
+                if hs:
+                    top += hs
+        for st in top:
             if st[0] == "if" and st[1][0] == "logic" and st[1][1] == "And":
                 s = _cmp_set(st[1][2], is_len)
                 unl = any(x[0] == "const" and x[1] == "encodation::UNLATCH" for x in T.sx_walk(st[1][3])) and any(x[0] == "call" and x[1].endswith("Reader::peek") for x in T.sx_walk(st[1][3]))
